@@ -99,4 +99,35 @@ def spoofCmdline (g : G) : Option Str :=
       some (ws.flatMap (fun w => w ++ [' ']))
     else none
 
+/-! ## `esl_getopts_CreateDefaultApp` -/
+
+/-- how `esl_getopts_CreateDefaultApp` ends: `exit(1)` after "Failed to parse command line", `exit(0)` after the
+    help page, `exit(1)` after "Incorrect number of command line arguments", or it returns the object -/
+inductive AppOutcome
+  | exitParse
+  | exitHelp
+  | exitNargs
+  | returned (g : G)
+  deriving Repr, DecidableEq
+
+/-- `esl_getopts_CreateDefaultApp(options, nargs, argc, argv, banner, usage)`; `none` = it crashes or dies in
+    `esl_fatal`: the table is refused by `Create` (the NULL object is used unchecked), there is no boolean option `-h`,
+    or `set_option` crashes -/
+def createDefaultApp (opts : List Opt) (nargs : Int) (argv : List Str) : Option AppOutcome :=
+  match create opts with
+  | none => none
+  | some g =>
+    match processCmdline g argv with
+    | .fault => none
+    | .done g1 st _ =>
+      if st != .ok then some .exitParse
+      else if (verifyConfig g1).1 != .ok then some .exitParse
+      else match optidxExactly opts ['-', 'h'] with
+        | none => none
+        | some i =>
+          if (g1.opt i).type != 0 then none
+          else if !(g1.valOf i).isNull then some .exitHelp
+          else if nargs != -1 && argNumber g1 != nargs then some .exitNargs
+          else some (.returned g1)
+
 end EaselModel.Getopts
